@@ -10,16 +10,16 @@ NOTE = ("contracts (//@ comments in zz_contracts*_verif.go, build tag verif) on 
         "Clauses the contracts do not decide are listed under coverage.not_decided in the evidence.")
 TECH = "contract-based deductive verification (own WP/symbolic-execution VC generator over go/ssa + SMT: z3, cvc5)"
 CLAIMS = {
- "C03": "injected data: per-function contracts over an abstract reflect (kind, integer / float64 / string / bool payload, field / element / pointee navigation): name resolution injected-first for reads, writes and calls (one- and two-level paths); field and pointer-scalar writes make exactly ONE store on the resolved target with the value converted across the integer / unsigned / float classes whenever representable; container reads yield the element or the zero value of the element type, container writes coerce key and value and make one store; arguments are evaluated once, in order, coerced to the declared parameter kinds and passed in one call whose first result is returned; host memory itself is outside the model (stores are monitored, not interpreted)",
- "C01": "expression evaluation: per-node contracts on the real Expression / MathExpression / ExpressionAtom / Constant Evaluate methods and core.Add/Sub/Mul/Div/compareIntegers in 64-bit bit-vector + IEEE float64 semantics: operand order, kind dispatch (wrapping int64/uint64, float promotion, string concatenation), exact integer comparison over the 65-bit extension, float64 comparison when a float is involved, lexicographic strings, boolean logic and negation, ill-typed operations and zero divisors are errors; the tree-level statement follows by structural induction (not mechanised); precedence/associativity (grammar + listener) and @-constants are NOT decided",
- "C02": "statement semantics: ghost monitors on the real Statements/If/Else/For/ForRange/Break/Continue/Return/Assignment/dispatcher Evaluate methods (in-order, first-true-branch, cond-before-iteration, step-after-continue, each key once, innermost-loop sentinels, rhs-before-write, no write on error); expression values are trusted (C01)",
- "C04": "sort model: loop contract + ghost monitor (k-th Execute call is on S[k], nothing after a failure in stop mode, error iff some rule failed) on the real SSA of the 5 sorted methods, discharged by SMT for all rule counts / failing subsets / both flag values",
- "C05": "mix / inverse-mix / N-M: fork/join protocol (Add total == forks, each task Execute once then Done last, Wait between stages) + window and stage monitors on 10 methods and their goroutine closures; schedule-independent",
+ "C03": "injected data: per-function contracts over an abstract reflect (kind, integer / float64 / string / bool payload, field / element / pointee navigation): name resolution injected-first for reads, writes and calls (one- and two-level paths); field and pointer-scalar writes make exactly ONE store on the resolved target with the value converted across the integer / unsigned / float classes whenever representable; container reads yield the element or the zero value of the element type, container writes coerce key and value and make one store; arguments are evaluated once, in order, coerced to the declared parameter kinds and passed in one call whose first result is returned; host memory itself is outside the model (stores are monitored, not interpreted); bounded stand-in B03 in the thorough tier",
+ "C01": "expression evaluation: per-node contracts on the real Expression / MathExpression / ExpressionAtom / Constant Evaluate methods and core.Add/Sub/Mul/Div/compareIntegers in 64-bit bit-vector + IEEE float64 semantics: operand order, kind dispatch (wrapping int64/uint64, float promotion, string concatenation), exact integer comparison over the 65-bit extension, float64 comparison when a float is involved, lexicographic strings, boolean logic and negation, ill-typed operations and zero divisors are errors; the tree-level statement follows by structural induction (not mechanised); the parser listener's callbacks carry contracts too (literals hand over the parsed token text, operators go into their own field, the finished node itself is handed to its holder once, @name/@desc/@sal/@id hand over the enclosing rule's header, holders fill left before right); precedence/associativity (the ANTLR recogniser and the walk order) are NOT decided by contracts: bounded stand-in B01 in the thorough tier",
+ "C02": "statement semantics: ghost monitors on the real Statements/If/Else/For/ForRange/Break/Continue/Return/Assignment/dispatcher Evaluate methods (in-order, first-true-branch, cond-before-iteration, step-after-continue, each key once, innermost-loop sentinels, rhs-before-write, no write on error); the listener callbacks and holders that wire statements into the tree (block hand-over, else-if append, for init/step, forRange header) carry contracts; expression values are trusted (C01); bounded stand-in B02 in the thorough tier",
+ "C04": "sort model: loop contract + ghost monitor (k-th Execute call is on S[k], nothing after a failure in stop mode, error iff some rule failed) on the real SSA of the 5 sorted methods, discharged by SMT for all rule counts / failing subsets / both flag values; bounded stand-in B04 in the thorough tier",
+ "C05": "mix / inverse-mix / N-M: fork/join protocol (Add total == forks, each task Execute once then Done last, Wait between stages) + window and stage monitors on 10 methods and their goroutine closures; schedule-independent; bounded stand-in B05 in the thorough tier",
  "C06": "pool isolation: every pooled entry point runs on an instance it owns (getGengine ownership ghost), injects only into that instance's DataContext, hands back a result map that is fresh per call, and its deferred closure deletes exactly the injected keys before the instance is returned; DataContext.Add/Del functional contracts",
  "C07": "update atomicity: each request snapshots (Kc, Dc) once under updateLock; full/incremental/removal/clear build a fresh container and publish it to master and every instance under updateLock (monitor invariant poolRules: all instances sameView as master); the merge never writes the installed container (frame)",
- "C08": "rule-set algebra: full build, builder incremental build, pool incremental merge and removal proved against the abstract view (name -> entity map, sorted list, index map agree: wfKc) with loop invariants incl. explicit position witnesses for delete+insert; BinarySearch proved",
+ "C08": "rule-set algebra: full build, builder incremental build, pool incremental merge and removal proved against the abstract view (name -> entity map, sorted list, index map agree: wfKc) with loop invariants incl. explicit position witnesses for delete+insert; BinarySearch proved; rule registration by the listener (own name, duplicates refused); bounded stand-in B08 in the thorough tier",
  "C09": "fault containment: RuleEntity.Execute structurally installs a recovering defer covering the whole rule body and converts the panic into its error result; every engine Execute* method and every goroutine body is proved panic-free given that contract (nil/index/slice/map/type-assert/division obligations); termination not decided",
- "C10": "compile entry points: success iff the text is non-blank and lexes/parses/walks cleanly (same predicate at all five entry points, through the ANTLR walk model) and on error the installed container and its fields are unchanged (frame); totality of the ANTLR runtime itself is not decided",
+ "C10": "compile entry points: success iff the text is non-blank and lexes/parses/walks cleanly (same predicate at all five entry points, through the ANTLR walk model) and on error the installed container and its fields are unchanged (frame); totality of the ANTLR runtime itself is not decided by contracts: bounded stand-in B10 in the thorough tier",
  "C11": "result map: allocated fresh at every Execute* entry; addResult called exactly for rules whose Execute reported the returned flag, with that value, under the result lock; ReturnStatement sets the flag only on success",
  "C12": "selected variants: selection-loop invariant with explicit witness arrays (rules == existing names in order), assumed stable-sort model with permutation witness, then the model's monitor over exactly that slice",
  "C13": "DAG model: per-layer fork/join with Wait between layers, unknown names skipped, a failed layer stops the rest and returns an error",
@@ -29,7 +29,7 @@ CLAIMS = {
  "C17": "pool capacity: getGengine returns an instance removed from the free/addition lists (ownership ghost, never two owners), never fails, and every pooled entry point's deferred closure hands the instance back on normal, error and panic exits (exceptional-path obligations); waiting liveness not decided",
  "C18": "conc blocks: fork/join protocol over the four statement lists (each statement forked once, evaluated once, Done last, Wait before the block returns), first error kept under the block's mutex, error iff some statement failed",
  "C19": "race freedom of gengine's own state as lock discipline: every access to a field declared guarded_by/access_under happens with its lock held (pool lists, rbSlice/ruleBuilder/clear/execModel, DataContext.base, result map), locks balanced on all paths; fork/join-ordered accesses by FJ",
- "C20": "error positions: the recovering closures of Assignment and the three call nodes cite the node's LineNum/SourceCode (fmt model), call errors are wrapped with the cited line, and nothing else is changed on the error path; expression-level citations and the listener's line bookkeeping are not decided here",
+ "C20": "error positions: the recovering closures of Assignment and the three call nodes cite the node's LineNum/SourceCode (fmt model), call errors are wrapped with the cited line, and nothing else is changed on the error path; expression-level errors cite the failing operator node, and the listener hands every citing node to its parent with LineNum / Column / Code of its own start token (monitors on the eight hand-over callbacks); trusted: that ANTLR's token line is the 1-based text line; bounded stand-in B20 in the thorough tier",
 }
 NA = {
 }
